@@ -225,6 +225,8 @@ class J1939_22:
                     #hash = self._buffer_hash(session, src_address, dst_address)
                     if hash not in self._multi_pg_snd_buffer:
                         self._multi_pg_snd_buffer[hash] = {'deadline': deadline, 'cpg': [cpg], 'fill_level': 4 + data_length}
+                        # the job thread has to take the new deadline into account
+                        self.__job_thread_wakeup()
                         break
                     elif (self._multi_pg_snd_buffer[hash]['fill_level'] <= (self.DataLength.TP - data_length)):
                         # update fill level
@@ -232,6 +234,7 @@ class J1939_22:
                         # update deadline
                         if self._multi_pg_snd_buffer[hash]['deadline'] > deadline:
                             self._multi_pg_snd_buffer[hash]['deadline'] = deadline
+                            self.__job_thread_wakeup()
                         # append c-pg
                         self._multi_pg_snd_buffer[hash]['cpg'].append(cpg)
                         break
